@@ -1,10 +1,12 @@
 """Run the registered quick check of a property against a seeded change kept under /verif/seeded/<id>/.
 
-    /venv/bin/python -m harness.run_seeded <id> [--tier quick|thorough] [--pid Cxx]
+    /venv/bin/python -m harness.run_seeded <id> [--tier quick|thorough] [--pid Cxx] [--seed N] [--keep-replay DIR]
 
-Creates a scratch git worktree of /repo HEAD under /tmp/seeded-wt, applies seeded/<id>/patch.diff there, runs the
-check with VERIF_REPO pointing at it (evidence/replays redirected to a scratch directory so the committed evidence is
-not touched), prints the outcome, removes the worktree.  Nothing is ever applied to /repo itself."""
+Creates a scratch git worktree of /repo HEAD and a PRIVATE COPY of /verif (with its warm lake build) under a scratch
+directory, applies seeded/<id>/patch.diff to the worktree, runs the check from the copy with VERIF_REPO pointing at the
+patched worktree, prints the outcome, removes both.  Nothing is ever applied to /repo itself and nothing in /verif
+(generated Lean files, evidence, replays) is touched, so several seeded runs may go in parallel with ordinary checks.
+Exit 0 = the change was detected (check exit 1 with a VIOLATION line), 3 = missed / other."""
 import argparse
 import json
 import os
@@ -22,22 +24,28 @@ def main():
     ap.add_argument("--tier", default="quick")
     ap.add_argument("--pid")
     ap.add_argument("--seed", default="0")
+    ap.add_argument("--keep-replay")
     a = ap.parse_args()
     d = os.path.join(VERIF, "seeded", a.sid)
     meta = json.load(open(os.path.join(d, "meta.json")))
     pid = a.pid or meta["property"]
-    wt = tempfile.mkdtemp(prefix="seeded-wt-")
-    os.rmdir(wt)
-    scratch = tempfile.mkdtemp(prefix="seeded-ev-")
+    base = tempfile.mkdtemp(prefix=f"seeded-{a.sid}-")
+    wt = os.path.join(base, "repo")
+    vcopy = os.path.join(base, "verif")
+    scratch = os.path.join(base, "out")
+    os.makedirs(scratch)
+    rc = 3
     try:
         subprocess.run(["git", "-C", "/repo", "worktree", "add", "-q", "--detach", wt, "HEAD"], check=True)
         subprocess.run(["git", "-C", wt, "apply", os.path.join(d, "patch.diff")], check=True)
+        shutil.copytree(VERIF, vcopy, symlinks=True,
+                        ignore=shutil.ignore_patterns(".git", "replays", "__pycache__", ".build.lock", "seeded"))
         env = dict(os.environ, VERIF_REPO=wt, VERIF_EVIDENCE_DIR=scratch, VERIF_REPLAY_DIR=scratch, VERIF_SEED=a.seed)
-        r = subprocess.run(["/venv/bin/python", "-m", "harness.vcheck", pid, "--tier", a.tier], cwd=VERIF, env=env,
+        r = subprocess.run(["/venv/bin/python", "-m", "harness.vcheck", pid, "--tier", a.tier], cwd=vcopy, env=env,
                            capture_output=True, text=True)
         out = r.stdout + r.stderr
-        viol = [l for l in out.split("\n") if l.startswith("VIOLATION") or l.startswith("HARNESS-ERROR") or l.startswith("KNOWN-FINDING")]
-        print(f"seeded {a.sid} property={pid} tier={a.tier} exit={r.returncode}")
+        viol = [l for l in out.split("\n") if l.startswith(("VIOLATION", "HARNESS-ERROR", "KNOWN-FINDING", "TIMEOUT"))]
+        print(f"seeded {a.sid} property={pid} tier={a.tier} seed={a.seed} exit={r.returncode}")
         for l in viol:
             print("  " + l[:300])
         for l in viol:
@@ -47,15 +55,18 @@ def main():
                     j = json.load(open(rp))
                     print("  replay case:", json.dumps(j.get("case"))[:500])
                     print("  problems:", json.dumps(j.get("problems") or j.get("broken"))[:600])
+                    if a.keep_replay:
+                        os.makedirs(a.keep_replay, exist_ok=True)
+                        shutil.copy(rp, a.keep_replay)
                 except OSError:
                     pass
-        print(out[-600:] if r.returncode not in (0, 1) else "")
-        # make sure generated Lean files are restored from the real repo afterwards
-        subprocess.run(["/venv/bin/python", "-c", "from harness import translate; translate.run('/repo')"], cwd=VERIF)
-        sys.exit(0 if r.returncode == 1 else 3)
+        if r.returncode not in (0, 1):
+            print(out[-1200:])
+        rc = 0 if (r.returncode == 1 and any(l.startswith("VIOLATION") for l in viol)) else 3
     finally:
         subprocess.run(["git", "-C", "/repo", "worktree", "remove", "--force", wt])
-        shutil.rmtree(scratch, ignore_errors=True)
+        shutil.rmtree(base, ignore_errors=True)
+    sys.exit(rc)
 
 
 if __name__ == "__main__":
